@@ -79,14 +79,22 @@ def _limits(mem_gb):
 
 
 def _run(cmd, timeout, mem_gb, log, cwd=None, quiet=False):
+    """run a tool in its own process group so that a timeout also kills the SMT solver cbmc may have spawned"""
+    import signal
     t0 = time.time()
+    p = subprocess.Popen(cmd, stdout=subprocess.PIPE, stderr=subprocess.STDOUT, preexec_fn=_limits(mem_gb), cwd=cwd,
+                         start_new_session=True)
     try:
-        p = subprocess.run(cmd, stdout=subprocess.PIPE, stderr=subprocess.STDOUT, timeout=timeout,
-                           preexec_fn=_limits(mem_gb), cwd=cwd)
-        out = p.stdout.decode(errors="replace")
+        out_b, _ = p.communicate(timeout=timeout)
+        out = out_b.decode(errors="replace")
         rc = p.returncode
-    except subprocess.TimeoutExpired as e:
-        out = (e.stdout or b"").decode(errors="replace") + "\n*** TIMEOUT after %ss\n" % timeout
+    except subprocess.TimeoutExpired:
+        try:
+            os.killpg(p.pid, signal.SIGKILL)
+        except OSError:
+            pass
+        out_b, _ = p.communicate()
+        out = (out_b or b"").decode(errors="replace") + "\n*** TIMEOUT after %ss\n" % timeout
         rc = -9
     dt = time.time() - t0
     with open(log, "a") as f:
